@@ -20,7 +20,7 @@ P = Property('C04', 'other',
              'contract-based deductive verification: VCs generated from the real AST (pyvc), z3/cvc5; bounded model checks',
              design_ref='DESIGN.md section 6, C04')
 P.trust('assumed contract of Sector.AddCashFlow(term, eqn: str) (ledger clauses as verified for eqn=None in C06; the definition rule is bounded, dyn/C06.py)',
-        'contracts of GetVariableName (C05), create_equation_from_terms (C12), CurrencyZone.GetSectors and SetEquationRightHandSide (C18), AddVariable (assumed contract; rejection clause verified in C11)')
+        'contracts of GetVariableName (C05), create_equation_from_terms (C12), CurrencyZone.GetSectors and SetEquationRightHandSide (C18), AddVariable (verified in C11 for identifier-shaped names)')
 P.not_decided.append('_GenerateMultiSupply (supply = demand, residual supplier, cross-currency suppliers), MoneyMarket / DepositMarket aggregation and '
                      'GenerateAssetWeighting are not under contract: bounded on solved models (dyn/C04.py)')
 P.replay_script = 'dyn/C04.py'
@@ -76,7 +76,7 @@ P.verify(fn(
     args=dict(self=Ref('Market'), prefix=STR, long_desc=STR),
     requires=[('demand_side', "prefix == 'DEM'"),
               ('zone_objects_exist', 'all(allocated(self.CurrencyZone.CountryList[cc]) and allocated(self.CurrencyZone.CountryList[cc].SectorList) for cc in range(0, len(self.CurrencyZone.CountryList)))'),
-              ('market_code_is_local', "not ('__' in 'DEM_' + self.Code)")],
+              ('market_code_is_local', "not ('__' in 'DEM_' + self.Code) and plain_name(self.Code)")],
     hints={'strip_rich': True, ('empty_list', 'term_list'): STR, ('empty_list', 'had_'): INT, ('empty_list', 'pos_'): INT, ('empty_list', 'ix_'): INT},
     ghost_after=[('term_list = []', 'had_ = []\npos_ = []\nix_ = []'),
                  ('if self.ShareParent(s):', 'if var_name in s.EquationBlock.Equations:\n    had_[len(had_) - 1] = 1\n_snapshot("HP")'),
@@ -134,7 +134,7 @@ P.verify(fn(
     'sfc_models.sector.Sector.GenerateAssetWeighting', name='sfc_models.sector.Sector.GenerateAssetWeighting[dict]',
     args=dict(self=Ref('Sector'), asset_weighting_dict=Dict(STR, STR), residual_asset_code=STR, is_absolute_weighting=BOOL),
     requires=[('relative_weights', 'not is_absolute_weighting'),
-              ('codes_are_local_names', "all(implies(has(%s, s), not ('__' in 'WGT_' + s)) for s in strings()) and not ('__' in 'WGT_' + residual_asset_code)" % AW),
+              ('codes_are_local_names', "all(implies(has(%s, s), not ('__' in 'WGT_' + s) and plain_name(s)) for s in strings()) and not ('__' in 'WGT_' + residual_asset_code) and plain_name(residual_asset_code)" % AW),
               ('the_rule_table_is_not_the_equation_block', '%s is not %s and keys(%s) is not keys(%s)' % (AW, BLK4, AW, BLK4))],
     loops={0: LoopSpec(header='for (code, weight_eqn) in asset_weighting_dict.items()', index='b', ghost={'H0': 'heap_now()'},
                        modifies=['len.R', 'el.R', 'len.S', 'el.S', 'dh.S.R', 'dv.S.R', 'dk', 'tyof', 'f.Equation.*', 'f.Term.*'], invariants=[
@@ -167,7 +167,7 @@ ZONE_OK = 'all(allocated(self.SearchListSource.CountryList[cc]) and allocated(se
 P.verify(fn(
     'sfc_models.sector_definitions.DepositMarket._GenerateEquations',
     args=dict(self=Ref('DepositMarket')),
-    requires=[('zone_objects_exist', ZONE_OK), ('market_code_is_local', "not ('__' in 'LAG_DEM_' + self.Code) and not ('__' in 'LAG_SUP_' + self.Code)")],
+    requires=[('zone_objects_exist', ZONE_OK), ('market_code_is_local', "not ('__' in 'LAG_DEM_' + self.Code) and not ('__' in 'LAG_SUP_' + self.Code) and plain_name(self.Code)")],
     hints={'strip_rich': True, ('empty_list', 'dem_terms'): STR, ('empty_list', 'had_'): INT, ('empty_list', 'pos_'): INT, ('empty_list', 'paid_'): INT},
     ghost_after=[('dem_terms = []', 'had_ = []\npos_ = []\npaid_ = []'),
                  ("dem_name = 'DEM_' + self.Code", 'if len(had_) > 0:\n    if dem_name in s.EquationBlock.Equations:\n        had_[len(had_) - 1] = 1\n_snapshot("HP")'),
@@ -184,6 +184,7 @@ P.verify(fn(
         ('bounds', '0 <= i and i <= len(ZL)'),
         ('scratch', 'fresh(ZL) and fresh(dem_terms) and fresh(had_) and fresh(pos_) and fresh(paid_) and had_ is not pos_ and paid_ is not pos_ and paid_ is not had_'),
         ('one_record_per_sector_examined', 'len(had_) == i and len(pos_) == i and len(paid_) == i'),
+        ('demand_name_fixed', "dem_name == 'DEM_' + self.Code"),
         ('every_holder_in_the_total_is_paid_interest', 'all(implies(pos_[j] >= 0, paid_[j] == 1) for j in range(0, i))'),
         ('zone_objects_exist', ZONE_OK),
         ('sector_identities_kept', "heap_unchanged_except('tyof', 'len.*', 'el.*', 'dh.*', 'dv.*', 'dk', 'f.Equation.*', 'f.Term.*')"),
